@@ -18,6 +18,7 @@ pub mod c12;
 pub mod c13;
 pub mod c14;
 pub mod c15;
+pub mod c16;
 pub mod iofault;
 
 pub fn get(id: &str) -> Option<Box<dyn Monitor>> {
@@ -37,6 +38,7 @@ pub fn get(id: &str) -> Option<Box<dyn Monitor>> {
         "C13" => Some(Box::new(c13::C13)),
         "C14" => Some(Box::new(c14::C14)),
         "C15" => Some(Box::new(c15::C15)),
+        "C16" => Some(Box::new(c16::C16)),
         _ => None,
     }
 }
